@@ -1,7 +1,12 @@
 SPEC = {
     "corr": [{"kind": "nf9-wf", "quick": 6000, "thorough": 600000},
              {"kind": "nf9", "quick": 4000, "thorough": 300000},
-             {"kind": "interp", "quick": 4000, "thorough": 300000}],
+             {"kind": "interp", "quick": 4000, "thorough": 300000},
+             # the property is also observed on the published JSON: the real NetFlow v9 workers (1..64 goroutines, the real read loop and its
+             # receive-buffer pool) on the same kind of datagrams — every published payload must be the solo decode of its own datagram
+             # (values that alias a recycled receive buffer show only here; seed C03-f)
+             {"kind": "pipeline", "quick": 32, "thorough": 1200, "runner": {"pkg": "./vflow", "test": "TestVerifPipeline", "race": False},
+              "env": {"VERIF_PIPE_PROTO": "v9"}}],
     "rule": "nf9-wf: sessions of well-formed generated NetFlow v9 export packets (template / options template / data "
             "flowsets, any field lengths incl. integers in more octets than their type (size+1..8 and 9..12), data records of any "
             "positive length, flowset padding of 0 .. min(record length - 1, 7) octets) with a "
